@@ -5,7 +5,7 @@ import itertools
 import random
 from typing import Iterator, List, Optional
 
-PREDS = ["lt1", "lt2", "lt3", "even", "true", "false", "truthy"]
+PREDS = ["lt1", "lt2", "lt3", "even", "true", "false", "truthy", "none_or_1", "zero_or_str"]
 KEYS = [None, "half", "neg", "const", "keyitem"]
 BINARY = ["add", "pickmax", "first", "second"]
 
@@ -66,7 +66,7 @@ def iter_spec(rng: random.Random, name: str, maxlen: int = 8) -> dict:
             pool = [None, None, 0, False, "", 1, ["T"]]
             spec["srcs"] = [[rng.choice(pool) for _ in src] for src in srcs]
         if name == "map":
-            spec["fns"] = ["mk"]
+            spec["fns"] = [rng.choice(["mk", "mk", "mk", "tup", "none_or_item", "falsy_result"])]
         if name == "zip_longest" and rng.random() < 0.5:
             spec["params"]["fillvalue"] = rng.choice([["item", 7, "fill"], ["none"], ["raw", 0]])
         return spec
